@@ -62,6 +62,11 @@ def run(tier, seed):
         for k in (1, 2):
             for how in (True, "same"):
                 ri.append((sp, dict(o, resume_from=k, resume_via_json=how)))
+    # runs aborted in the middle of an allocation (the n-th eligibility question of step k raises) and continued with state and logs kept
+    for sp, o in its[:: (7 if tier == "quick" else 3)] + [(sp, {"rule": "TSLACK", "max_time": 20}) for sp in F.rule_sensitive_specs()[:4]]:
+        for k in (0, 1, 2):
+            for n in (1, 2, 3, 4, 6):
+                ri.append((sp, dict(o, alloc_fault=[k, n])))
     col.merge(stepcheck.explore(ri, MONS, 0, 0, seed=seed))
     lit = [(sp, {"rule": "TSLACK", "max_time": 20}) for sp in F.unsorted_absence_specs() + F.same_name_task_specs() + F.double_link_specs() + F.three_level_product_specs() + F.nested_running_specs() + F.nested_order_specs()]
     col.merge(stepcheck.explore(lit, MONS, 0, 0, seed=seed))
